@@ -34,6 +34,8 @@ def run_world(world, idx=0, timeout=180, hashseed='0', extra_env=None, keep=Fals
         spec['preset'] = True
     if world.get('stdout_encoding'):
         spec['stdout_encoding'] = world['stdout_encoding']
+    if world.get('via'):
+        spec['via'] = world['via']
     if 'warnings' in world:
         spec['warnings'] = world['warnings']
     if 'child_cwd' in world:
@@ -98,10 +100,25 @@ RUNNING = re.compile(r'^Running (\S+) tests:', re.M)
 ANSI = re.compile(r'\x1b\[[0-9;]*m')
 
 
+def parse_listing(text, header):
+    """Lines of the 'Tests with failures:' / 'Tests with errors:' listing (None when the section is absent)."""
+    i = text.find('\n' + header + '\n')
+    if i < 0:
+        return None
+    out = []
+    for line in text[i + len(header) + 2:].split('\n'):
+        if line.startswith('   '):
+            out.append(line[3:])
+        else:
+            break
+    return out
+
+
 def parse_stdout(text):
     text = ANSI.sub('', text)
     out = {'summaries': [[int(x) for x in m.groups()] for m in SUMMARY.finditer(text)],
-           'total': None, 'running': RUNNING.findall(text)}
+           'total': None, 'running': RUNNING.findall(text),
+           'listed_failures': parse_listing(text, 'Tests with failures:'), 'listed_errors': parse_listing(text, 'Tests with errors:')}
     m = TOTAL.search(text)
     if m:
         out['total'] = [int(x) for x in m.groups()]
